@@ -31,7 +31,8 @@ ASSUMPTIONS = [
     "golang.org/x/crypto/blake2b.Sum256 = lib/Blake2b.v blake2b256 (RFC 7693 vectors in Coq; compared on every packet of the correspondence run)",
 ]
 TRUSTED = ["modelled rather than verified: extras/obfs/salamander.go and obfsPacketConn.ReadFrom/WriteTo of extras/obfs/conn.go (hand transcription in coq/model/C13_Salamander.v; "
-           "their use of writeMutex/readMutex in coq/model/C13_Lock.v, tied by a TryLock observation after every returned call)",
+           "their use of writeMutex/readMutex in coq/model/C13_Lock.v, tied by a TryLock observation after every returned call; the mutexes are found by field name "
+           "through reflection, a tree without such a field has that component not compared - recorded under lock_observation / notes - unless its conn.go declares the field)",
            "python hashlib.blake2b as the second oracle of the wire format"]
 PER_SHARD = 12
 EXTRA_TARGETS = ["corr/C13_Corr.vo"]
